@@ -1242,6 +1242,10 @@ class Run(object):
         if ev.get('icls') == 'wrongkind':
             if not (o['k'] == 'exc' and o['fam'] == 'config'):
                 return bad('input of the wrong kind was not refused with a configuration error')
+            if '\n' in o['msg'] and ev.get('ecls') != 'invalid':
+                # (with an invalid expect the error may come from an author-defined inference hook,
+                # which runs outside the guarded region by design)
+                return bad('line breaks in the refusal of non-text input are not rendered as <br/>')
             return None
         # scripted failures
         fired = None
